@@ -580,10 +580,14 @@ ssize_t read(int fd, void *buf, size_t n)
 			return -1;
 		}
 		m = p->count < (int)n ? (size_t)p->count : n;
-		for (i = 0; i < m; i++) {
-			((unsigned char *)buf)[i] = p->data[p->head];
-			p->head = (p->head + 1) % KPIPE_MAXCAP;
+		if (p->cap <= KPIPE_MAXCAP) {
+			for (i = 0; i < m; i++) {
+				((unsigned char *)buf)[i] = p->data[p->head];
+				p->head = (p->head + 1) % KPIPE_MAXCAP;
+			}
 		}
+		/* larger pipes: only the byte count is modelled (it may be a solver unknown); the
+		 * caller's buffer is left untouched */
 		p->count -= (int)m;
 		sx_hb_acq(p);
 		return (ssize_t)m;
@@ -664,8 +668,9 @@ ssize_t write(int fd, const void *buf, size_t n)
 		}
 		m = (size_t)(p->cap - p->count) < n ? (size_t)(p->cap - p->count) : n;
 		sx_hb_rel(p);
-		for (i = 0; i < m; i++)
-			p->data[(p->head + p->count + i) % KPIPE_MAXCAP] = ((const unsigned char *)buf)[i];
+		if (p->cap <= KPIPE_MAXCAP)
+			for (i = 0; i < m; i++)
+				p->data[(p->head + p->count + i) % KPIPE_MAXCAP] = ((const unsigned char *)buf)[i];
 		p->count += (int)m;
 		return (ssize_t)m;
 	}
